@@ -2,7 +2,6 @@
 package c15
 
 import (
-	"encoding/json"
 	"fmt"
 	"runtime"
 	"strings"
@@ -77,7 +76,7 @@ func norm(tr []script.Event) []string {
 			c.Remote = ""
 			ev.Ctx = &c
 		}
-		b, _ := json.Marshal(ev)
+		b, _ := core.MarshalCase(ev)
 		out = append(out, string(b))
 	}
 	return out
